@@ -37,3 +37,65 @@ Check C15_nonvacuous :
   exists d' tl', dist_at (run ex_W ex_ops) (KRdDist 7) = Some (d', tl') /\
     d_debt_final ex_dist = false /\ d_debt_final d' = true /\ d_total_validators d' = 3 /\ d_epoch d' = 7.
 Print Assumptions C15_nonvacuous.
+
+From DZ Require Import Base Keys Merkle BurnRate Shares Swap_Ring State World SwapDeq RD Passport Swap Exec Lemmas_RdGuards Lemmas_RdGuards2.
+
+(* creation succeeds only for the debt accountant, unpaused, after the initialization grace period, with every snapshotted parameter configured, at exactly the address of epoch next_epoch and its custody, both still unused *)
+Theorem C15_creation_guards :
+  forall (cx : ctx) (W W' : world),
+         rd_initialize_distribution cx W = Ok W' ->
+         exists
+           (m0 m1 m2 m3 m4 m5 m6 m7 m8 m9 : meta) (rest : list meta) (c : rd_config) 
+         (j : journal) (rate : N) (burn' : params),
+           cx_metas cx = m0 :: m1 :: m2 :: m3 :: m4 :: m5 :: m6 :: m7 :: m8 :: m9 :: rest /\
+           mwritable m0 = true /\
+           rd_acct W (mkey m0) (DConfig c) /\
+           msigner m1 = true /\
+           mkey m1 = c_debt_accountant c /\
+           c_paused c = false /\
+           c_init_grace_min c <> 0 /\
+           c_last_init_ts c + c_init_grace_min c * 60 <= now W /\
+           now W < two32 /\
+           c_calc_grace_min c <> 0 /\
+           fees_configured (c_fees c) = true /\
+           br_compute (c_burn c) = Some (rate, burn') /\
+           c_relay c <> 0 /\
+           mkey m3 = KRdDist (c_next_epoch c) /\
+           mkey m4 = KTok2z (KRdDist (c_next_epoch c)) /\
+           mkey m5 = KMint /\
+           mkey m6 = KToken /\
+           fresh_acct W (KRdDist (c_next_epoch c)) /\
+           fresh_acct W (KTok2z (KRdDist (c_next_epoch c))) /\
+           token_mint W KMint /\
+           mwritable m7 = true /\
+           rd_acct W (mkey m7) (DJournal j) /\ mkey m8 = KTok2z (mkey m7) /\ mkey m9 = KAta (mkey m7) KMint.
+Proof. exact rd_initialize_distribution_guards. Qed.
+Check C15_creation_guards :
+  forall (cx : ctx) (W W' : world),
+         rd_initialize_distribution cx W = Ok W' ->
+         exists
+           (m0 m1 m2 m3 m4 m5 m6 m7 m8 m9 : meta) (rest : list meta) (c : rd_config) 
+         (j : journal) (rate : N) (burn' : params),
+           cx_metas cx = m0 :: m1 :: m2 :: m3 :: m4 :: m5 :: m6 :: m7 :: m8 :: m9 :: rest /\
+           mwritable m0 = true /\
+           rd_acct W (mkey m0) (DConfig c) /\
+           msigner m1 = true /\
+           mkey m1 = c_debt_accountant c /\
+           c_paused c = false /\
+           c_init_grace_min c <> 0 /\
+           c_last_init_ts c + c_init_grace_min c * 60 <= now W /\
+           now W < two32 /\
+           c_calc_grace_min c <> 0 /\
+           fees_configured (c_fees c) = true /\
+           br_compute (c_burn c) = Some (rate, burn') /\
+           c_relay c <> 0 /\
+           mkey m3 = KRdDist (c_next_epoch c) /\
+           mkey m4 = KTok2z (KRdDist (c_next_epoch c)) /\
+           mkey m5 = KMint /\
+           mkey m6 = KToken /\
+           fresh_acct W (KRdDist (c_next_epoch c)) /\
+           fresh_acct W (KTok2z (KRdDist (c_next_epoch c))) /\
+           token_mint W KMint /\
+           mwritable m7 = true /\
+           rd_acct W (mkey m7) (DJournal j) /\ mkey m8 = KTok2z (mkey m7) /\ mkey m9 = KAta (mkey m7) KMint.
+Print Assumptions C15_creation_guards.
